@@ -132,7 +132,7 @@ func (wg *WaitGroup) Wait(ctx context.Context) {
 	// need this to wake up any waiters in the case that the
 	// context has been canceled, to avoid having many
 	// theads/waiters blocking.
-	go func() { <-ctx.Done(); wg.cond.Broadcast() }()
+	go func() { <-ctx.Done(); wg.mu.Lock(); defer wg.mu.Unlock(); wg.cond.Broadcast() }()
 
 	for {
 		select {
